@@ -15,13 +15,15 @@ import (
 type Solver struct {
 	cmd       *exec.Cmd
 	in        io.WriteCloser
-	out       *bufio.Reader
+	lines     chan string
 	sent      map[int32]bool // terms currently defined in the solver
+	symIDs    map[string]int32
 	nsent     int
 	stack     []*Term   // asserted path condition, one scope per conjunct
 	defs      [][]int32 // term ids defined per scope level (index 0 = base)
 	Kind      string
 	timeoutMs int
+	QuickMs   int
 	Stats     *SolverStats
 	log       io.Writer
 }
@@ -30,14 +32,16 @@ type SolverStats struct {
 	Sat, Unsat, Unknown, Errors int
 	Time                        time.Duration
 	Restarts                    int
+	Tactic                      int
+	Timeouts                    int
 }
 
 func solverArgs(kind string, timeoutMs int) []string {
 	switch kind {
 	case "z3":
-		return []string{"z3", "-in", fmt.Sprintf("-t:%d", timeoutMs)}
+		return []string{"z3", "-in"}
 	case "z3-new":
-		return []string{"z3-new", "-in", fmt.Sprintf("-t:%d", timeoutMs)}
+		return []string{"z3-new", "-in"}
 	case "cvc5":
 		return []string{"cvc5", "--incremental", "--lang=smt2", "--produce-models", fmt.Sprintf("--tlimit-per=%d", timeoutMs)}
 	}
@@ -67,8 +71,22 @@ func (s *Solver) start() error {
 	if err := cmd.Start(); err != nil {
 		return err
 	}
-	s.cmd, s.in, s.out = cmd, in, bufio.NewReaderSize(out, 1<<16)
+	s.cmd, s.in = cmd, in
+	s.lines = make(chan string, 256)
+	go func(ch chan string, r *bufio.Reader) {
+		for {
+			l, err := r.ReadString('\n')
+			if l != "" {
+				ch <- l
+			}
+			if err != nil {
+				close(ch)
+				return
+			}
+		}
+	}(s.lines, bufio.NewReaderSize(out, 1<<16))
 	s.sent = make(map[int32]bool)
+	s.symIDs = make(map[string]int32)
 	s.nsent = 0
 	s.stack = nil
 	s.defs = [][]int32{nil}
@@ -141,6 +159,12 @@ func (s *Solver) define(t *Term, sb *strings.Builder) {
 			s.defs[len(s.defs)-1] = append(s.defs[len(s.defs)-1], x.id)
 		}
 		if x.op == OSym {
+			if old, ok := s.symIDs[x.name]; ok && old != x.id && s.sent[old] {
+				// same harness name, different intrinsic range, still declared:
+				// cannot happen with scoped declarations; be safe.
+				panic(solverConflict{x.name})
+			}
+			s.symIDs[x.name] = x.id
 			fmt.Fprintf(sb, "(declare-const %s %s)\n", symName(x.name), sortOf(x))
 			if x.w > 0 {
 				if x.c == 1 { // signed range
@@ -157,6 +181,8 @@ func (s *Solver) define(t *Term, sb *strings.Builder) {
 	}
 }
 
+type solverConflict struct{ name string }
+
 type Result int
 
 const (
@@ -167,10 +193,21 @@ const (
 
 func (r Result) String() string { return [...]string{"unsat", "sat", "unknown"}[r] }
 
-func (s *Solver) readLine() (string, error) {
-	l, err := s.out.ReadString('\n')
-	return strings.TrimSpace(l), err
+var errSolverTimeout = fmt.Errorf("solver timeout")
+
+func (s *Solver) readLineT(d time.Duration) (string, error) {
+	select {
+	case l, ok := <-s.lines:
+		if !ok {
+			return "", io.EOF
+		}
+		return strings.TrimSpace(l), nil
+	case <-time.After(d):
+		return "", errSolverTimeout
+	}
 }
+
+func (s *Solver) readLine() (string, error) { return s.readLineT(10 * time.Minute) }
 
 func (s *Solver) pushLevel(sb *strings.Builder) {
 	sb.WriteString("(push 1)\n")
@@ -220,7 +257,21 @@ func (s *Solver) Check(pc []*Term, extra ...*Term) Result {
 // returns values for syms.  The path condition is kept asserted between
 // calls (one scope per conjunct), so consecutive queries along a path only
 // pay for what is new.
-func (s *Solver) CheckModel(pc []*Term, extra []*Term, syms []*Term, text string) (Result, map[string]uint64) {
+func (s *Solver) CheckModel(pc []*Term, extra []*Term, syms []*Term, text string) (r Result, m map[string]uint64) {
+	defer func() {
+		if e := recover(); e != nil {
+			if _, ok := e.(solverConflict); ok {
+				s.Restart()
+				r, m = s.checkModel(pc, extra, syms, text)
+				return
+			}
+			panic(e)
+		}
+	}()
+	return s.checkModel(pc, extra, syms, text)
+}
+
+func (s *Solver) checkModel(pc []*Term, extra []*Term, syms []*Term, text string) (Result, map[string]uint64) {
 	t0 := time.Now()
 	defer func() { s.Stats.Time += time.Since(t0) }()
 	if s.nsent > 300000 || len(s.stack) > 0 && len(pc) == 0 && s.nsent > 50000 {
@@ -244,9 +295,21 @@ func (s *Solver) CheckModel(pc []*Term, extra []*Term, syms []*Term, text string
 	}
 	sb.WriteString("(check-sat)\n")
 	s.send(sb.String())
-	line, err := s.readLine()
+	quick := time.Duration(s.QuickMs) * time.Millisecond
+	if quick == 0 {
+		quick = 2500 * time.Millisecond
+	}
+	line, err := s.readLineT(quick)
 	res := Unknown
 	switch {
+	case err == errSolverTimeout:
+		// The incremental core is stuck: drop the process (state is rebuilt
+		// lazily from the path condition) and let the caller fall back.
+		s.Stats.Unknown++
+		s.Stats.Timeouts++
+		s.Restart()
+		s.Stats.Restarts--
+		return Unknown, nil
 	case err != nil:
 		s.Stats.Errors++
 		fmt.Fprintf(os.Stderr, "ENGINE-ERROR solver died: %v\n", err)
@@ -277,7 +340,7 @@ func (s *Solver) CheckModel(pc []*Term, extra []*Term, syms []*Term, text string
 		q.WriteString("))")
 		s.send(q.String())
 		txt, err := s.readSexp()
-		if err != nil || strings.HasPrefix(txt, "(error") {
+		if err != nil || strings.Contains(txt, "(error") {
 			s.Stats.Errors++
 			fmt.Fprintf(os.Stderr, "ENGINE-ERROR get-value: %v %s\n", err, txt)
 			s.Restart()
@@ -294,32 +357,40 @@ func (s *Solver) CheckModel(pc []*Term, extra []*Term, syms []*Term, text string
 func (s *Solver) readSexp() (string, error) {
 	var sb strings.Builder
 	depth := 0
-	started := false
-	inBar := false
 	for {
-		b, err := s.out.ReadByte()
-		if err != nil {
-			return sb.String(), err
-		}
-		sb.WriteByte(b)
-		if inBar {
-			if b == '|' {
-				inBar = false
+		var line string
+		select {
+		case l, ok := <-s.lines:
+			if !ok {
+				return sb.String(), io.EOF
 			}
-			continue
+			line = l
+		case <-time.After(60 * time.Second):
+			return sb.String(), errSolverTimeout
 		}
-		switch b {
-		case '|':
-			inBar = true
-		case '(':
-			depth++
-			started = true
-		case ')':
-			depth--
+		sb.WriteString(line)
+		if strings.Contains(line, "(error") {
+			return sb.String(), nil // z3 prints unbalanced "((error ..."
 		}
-		if started && depth == 0 {
-			// consume rest of line
-			s.out.ReadString('\n')
+		inBar := false
+		for i := 0; i < len(line); i++ {
+			ch := line[i]
+			if inBar {
+				if ch == '|' {
+					inBar = false
+				}
+				continue
+			}
+			switch ch {
+			case '|':
+				inBar = true
+			case '(':
+				depth++
+			case ')':
+				depth--
+			}
+		}
+		if depth <= 0 && strings.TrimSpace(sb.String()) != "" {
 			return sb.String(), nil
 		}
 	}
@@ -398,7 +469,7 @@ func parseModel(txt string, syms []*Term) map[string]uint64 {
 
 // Script renders a standalone SMT-LIB script for the conjunction.
 func Script(conds []*Term, syms []*Term, extra string) string {
-	s := &Solver{sent: make(map[int32]bool)}
+	s := &Solver{sent: make(map[int32]bool), symIDs: make(map[string]int32)}
 	var sb strings.Builder
 	sb.WriteString("(set-option :produce-models true)\n")
 	for _, c := range conds {
